@@ -1033,6 +1033,199 @@ fn gen_long_trace(g: &mut Gen) -> TraceOut {
     out
 }
 
+// ---------------------------------------------------------------- sequential exploration
+/// one operation of the sequential alphabet, run to completion (manager and hooks answer Ok unless said)
+#[derive(Clone, Copy, Debug, PartialEq)]
+enum SeqOp {
+    Get,         // non-blocking get
+    GetWait,     // blocking get: parks when no slot is free (and is completed by a later operation)
+    CancelWait,  // the oldest parked get is abandoned
+    GetReject,   // non-blocking get whose first idle object is rejected
+    DropLow,     // return the held object with the lowest id
+    DropHigh,    // ... the highest id
+    Take,        // Object::take of the lowest
+    Resize(i64),
+    RetainNone,  // retain(|_| false)
+    RetainTail,  // retain that removes the first idle object only
+    Close,
+    Status,
+}
+
+const SEQ_ALPHABET: [SeqOp; 16] = [
+    SeqOp::Get,
+    SeqOp::GetWait,
+    SeqOp::CancelWait,
+    SeqOp::GetReject,
+    SeqOp::DropLow,
+    SeqOp::DropHigh,
+    SeqOp::Take,
+    SeqOp::Resize(0),
+    SeqOp::Resize(1),
+    SeqOp::Resize(2),
+    SeqOp::Resize(3),
+    SeqOp::RetainNone,
+    SeqOp::RetainTail,
+    SeqOp::Close,
+    SeqOp::Status,
+    SeqOp::Get,
+];
+
+/// everything that can run without outside help runs to its end (manager and hooks answer Ok); parked
+/// gets that were not given a permit stay parked
+fn seq_settle(w: &mut World, out: &mut TraceOut) -> bool {
+    for _ in 0..400 {
+        let mut next: Option<Vec<i64>> = None;
+        for (t, y) in w.sched.states().iter().enumerate() {
+            let t = t as i64;
+            match y {
+                Yield::Done(_) => {}
+                Yield::Start | Yield::Point(_) => next = Some(vec![L_STEP, t, 0, 0, 0]),
+                Yield::Gate { .. } => next = Some(vec![L_ENV, t, 0, 0, 0]),
+                Yield::Sem => {
+                    if w.sched.woken(t as usize) || w.pool.lock().unwrap().as_ref().map(|p| p.verif_snapshot().closed).unwrap_or(false) {
+                        next = Some(vec![L_STEP, t, 0, 0, 0]);
+                    }
+                }
+            }
+            if next.is_some() {
+                break;
+            }
+        }
+        match next {
+            Some(l) => {
+                if !run_label(w, out, l) {
+                    return false;
+                }
+            }
+            None => return true,
+        }
+    }
+    false
+}
+
+fn seq_parked(w: &World) -> Vec<usize> {
+    w.sched.states().iter().enumerate().filter(|(t, y)| matches!(y, Yield::Sem) && !w.sched.woken(*t)).map(|(t, _)| t).collect()
+}
+
+/// applies the operation; false = not applicable in this state (nothing was done)
+fn seq_apply(w: &mut World, out: &mut TraceOut, r: &mut Rng, op: SeqOp) -> bool {
+    seq_apply0(w, out, r, op) && seq_settle(w, out)
+}
+
+fn seq_apply0(w: &mut World, out: &mut TraceOut, r: &mut Rng, op: SeqOp) -> bool {
+    let snap = w.pool.lock().unwrap().as_ref().unwrap().verif_snapshot();
+    let held: Vec<usize> = w.held.lock().unwrap().keys().cloned().collect();
+    let t = w.sched.ntasks() as i64;
+    match op {
+        SeqOp::Get => run_label(w, out, vec![L_START, t, OP_GET, 1, 0]) && run_task(w, out, r, t, 0),
+        SeqOp::GetWait => {
+            seq_parked(w).len() < 2 && !snap.closed && run_label(w, out, vec![L_START, t, OP_GET, 0, 0]) && run_task(w, out, r, t, 0)
+        }
+        SeqOp::CancelWait => match seq_parked(w).first() {
+            Some(p) => run_label(w, out, vec![L_CANCEL, *p as i64, 0, 0, 0]),
+            None => false,
+        },
+        SeqOp::GetReject => {
+            snap.idle_len > 0 && !snap.closed && run_label(w, out, vec![L_START, t, OP_GET, 1, 0]) && run_task_rejecting(w, out, t, 1)
+        }
+        SeqOp::DropLow | SeqOp::DropHigh | SeqOp::Take => {
+            if held.is_empty() || (op == SeqOp::DropHigh && held.len() < 2) {
+                return false;
+            }
+            let o = if op == SeqOp::DropHigh { held[held.len() - 1] } else { held[0] } as i64;
+            let k = if op == SeqOp::Take { OP_TAKE } else { OP_DROP };
+            run_label(w, out, vec![L_START, t, k, o, 0]) && run_task(w, out, r, t, 0)
+        }
+        SeqOp::Resize(n) => {
+            n as usize != snap.max_size && run_label(w, out, vec![L_START, t, OP_RESIZE, n, 0]) && run_task(w, out, r, t, 0)
+        }
+        SeqOp::RetainNone | SeqOp::RetainTail => {
+            if snap.idle_len == 0 || (op == SeqOp::RetainTail && snap.idle_len < 2) {
+                return false;
+            }
+            let nb = snap.idle_len.min(4) as i64;
+            let mask = if op == SeqOp::RetainNone { 0 } else { (1i64 << nb) - 2 };
+            run_label(w, out, vec![L_START, t, OP_RETAIN, mask, nb]) && run_task(w, out, r, t, 0)
+        }
+        SeqOp::Close => !snap.closed && run_label(w, out, vec![L_START, t, OP_CLOSE, 0, 0]) && run_task(w, out, r, t, 0),
+        SeqOp::Status => run_label(w, out, vec![L_START, t, OP_STATUS, 0, 0]) && run_task(w, out, r, t, 0),
+    }
+}
+
+/// what distinguishes two pool states for the exploration (identities are abstracted away)
+fn seq_key(w: &World) -> Vec<i64> {
+    let p = w.pool.lock().unwrap();
+    let p = p.as_ref().unwrap();
+    let s = p.verif_snapshot();
+    let mut k = vec![s.permits as i64, s.closed as i64, s.size as i64, s.max_size as i64, s.users as i64, s.debt as i64];
+    k.push(w.held.lock().unwrap().len() as i64);
+    k.push(seq_parked(w).len() as i64);
+    let mut idle = vec![];
+    p.verif_visit_idle(|_, m| idle.push(m.recycle_count.min(2) as i64));
+    k.push(idle.len() as i64);
+    k.extend(idle);
+    k
+}
+
+/// breadth-first over operation sequences, pruned by the abstract pool state; one trace per edge (the
+/// path, the new operation, the usual drain and capacity probe). Returns the number of traces printed.
+fn explore_seq(max0: usize, hooks: usize, max_depth: usize, max_edges: usize, stride: usize) -> usize {
+    use std::collections::{HashSet, VecDeque};
+    let cfg = Cfg {
+        max: max0,
+        lifo: hooks % 2 == 1,
+        pre: vec![false; hooks.min(1)],
+        post: vec![true; hooks.min(1)],
+        pc: vec![],
+    };
+    let mut seen: HashSet<Vec<i64>> = HashSet::new();
+    let mut queue: VecDeque<Vec<SeqOp>> = VecDeque::new();
+    queue.push_back(vec![]);
+    let mut edges = 0usize;
+    let mut printed = 0usize;
+    while let Some(path) = queue.pop_front() {
+        for (oi, op) in SEQ_ALPHABET.iter().enumerate() {
+            if oi == SEQ_ALPHABET.len() - 1 {
+                continue; // the alphabet lists Get twice for the random sampler only
+            }
+            if edges >= max_edges {
+                return printed;
+            }
+            let mut w = World::new(cfg.clone());
+            let mut out = TraceOut { cfg: cfg.clone(), labels: vec![], obs: vec![], err: None };
+            let mut r = Rng::new(1);
+            let mut ok = true;
+            for p in &path {
+                ok = ok && seq_apply(&mut w, &mut out, &mut r, *p);
+            }
+            let applied = ok && seq_apply(&mut w, &mut out, &mut r, *op);
+            if !applied || out.err.is_some() {
+                if out.err.is_some() {
+                    print_trace(printed, &out);
+                    printed += 1;
+                }
+                cleanup(w);
+                continue;
+            }
+            edges += 1;
+            let key = seq_key(&w);
+            let fresh = seen.insert(key);
+            if fresh && path.len() + 1 < max_depth {
+                let mut np = path.clone();
+                np.push(*op);
+                queue.push_back(np);
+            }
+            if edges % stride.max(1) == 0 {
+                finish(&mut w, &mut out, true, false);
+                print_trace(printed, &out);
+                printed += 1;
+            }
+            cleanup(w);
+        }
+    }
+    printed
+}
+
 fn gen_trace(g: &mut Gen) -> TraceOut {
     if g.profile == Profile::Order {
         return gen_order_trace(g);
@@ -1783,6 +1976,16 @@ fn main() {
             let (cfg, script) = &sc[k % sc.len()];
             let n = explore(cfg, script, depth, max_edges);
             eprintln!("scenario {}: {} edges", k, n);
+        }
+        Some("seq") => {
+            // seq <max_size> <hooks 0/1/2> <max depth> <max edges> <stride: print every n-th edge>
+            let m0: usize = args[2].parse().unwrap();
+            let hooks: usize = args[3].parse().unwrap();
+            let depth: usize = args[4].parse().unwrap();
+            let max_edges: usize = args[5].parse().unwrap();
+            let stride: usize = args[6].parse().unwrap();
+            let n = explore_seq(m0, hooks, depth, max_edges, stride);
+            eprintln!("seq max_size {}: {} traces", m0, n);
         }
         Some("replay") => {
             let text = std::fs::read_to_string(&args[2]).unwrap();
